@@ -313,3 +313,108 @@ def str_template(fn_node: ast.AST, e: ast.AST) -> list[tuple[str, str]]:
         elif not (k == "lit" and v == ""):
             merged.append((k, v))
     return merged
+
+
+# ---- boolean reasoning over the atoms of a test (truth-table; no solver) -------------------------------
+
+
+def _bool_atoms(t: ast.expr, out: list[str]) -> None:
+    if isinstance(t, ast.BoolOp):
+        for v in t.values:
+            _bool_atoms(v, out)
+    elif isinstance(t, ast.UnaryOp) and isinstance(t.op, ast.Not):
+        _bool_atoms(t.operand, out)
+    else:
+        k = _atom_key(t)[0]
+        if k not in out:
+            out.append(k)
+
+
+def _atom_key(t: ast.expr) -> tuple[str, bool]:
+    """(canonical atom text, polarity): `X is not None` is the negation of `X is None`, `a != b` of `a == b`, `x not in y` of `x in y`."""
+    if isinstance(t, ast.Compare) and len(t.ops) == 1:
+        op = t.ops[0]
+        flip = {ast.IsNot: ast.Is, ast.NotEq: ast.Eq, ast.NotIn: ast.In}
+        for neg, pos in flip.items():
+            if isinstance(op, neg):
+                return norm(ast.Compare(left=t.left, ops=[pos()], comparators=t.comparators)), False
+    return norm(t), True
+
+
+def _bool_eval(t: ast.expr, val: dict[str, bool]) -> bool:
+    if isinstance(t, ast.BoolOp):
+        vs = [_bool_eval(v, val) for v in t.values]
+        return all(vs) if isinstance(t.op, ast.And) else any(vs)
+    if isinstance(t, ast.UnaryOp) and isinstance(t.op, ast.Not):
+        return not _bool_eval(t.operand, val)
+    k, pol = _atom_key(t)
+    return val[k] if pol else not val[k]
+
+
+def edge_implies(test: ast.expr, edge: bool, goal: ast.expr) -> bool:
+    """For every truth assignment of the atoms under which `test` evaluates to `edge`, `goal` is true (and some such assignment
+    exists). Atoms are the maximal non-boolean subexpressions, compared by normalised text (negated comparison forms folded)."""
+    import itertools
+
+    atoms: list[str] = []
+    _bool_atoms(test, atoms)
+    _bool_atoms(goal, atoms)
+    if len(atoms) > 10:
+        return False
+    sat = False
+    for bits in itertools.product((False, True), repeat=len(atoms)):
+        val = dict(zip(atoms, bits))
+        if _bool_eval(test, val) == edge:
+            sat = True
+            if not _bool_eval(goal, val):
+                return False
+    return sat
+
+
+def _always_leaves(body: list[ast.stmt]) -> bool:
+    if not body:
+        return False
+    last = body[-1]
+    if isinstance(last, (ast.Return, ast.Raise, ast.Continue, ast.Break)):
+        return True
+    if isinstance(last, ast.If) and last.orelse:
+        return _always_leaves(last.body) and _always_leaves(last.orelse)
+    return False
+
+
+def facts_at(stmt: ast.AST) -> list[tuple[ast.expr, bool]]:
+    """(test, value) pairs known at a statement from the structure around it: enclosing if/else arms, and earlier sibling
+    `if t: <always leaves>` (then t is false afterwards) / `if t: ... else: <always leaves>` (then t is true)."""
+    out: list[tuple[ast.expr, bool]] = []
+    child: ast.AST = stmt
+    p = getattr(stmt, "parent", None)
+    while p is not None and not isinstance(p, (ast.FunctionDef, ast.AsyncFunctionDef, ast.Lambda, ast.Module)):
+        if isinstance(p, (ast.If, ast.While)):
+            if child in p.body:
+                out.append((p.test, True))
+            elif child in p.orelse and isinstance(p, ast.If):
+                out.append((p.test, False))
+        for fld in ("body", "orelse", "finalbody"):
+            blk = getattr(p, fld, None)
+            if isinstance(blk, list) and child in blk:
+                for st in blk[: blk.index(child)]:
+                    if isinstance(st, ast.If):
+                        if _always_leaves(st.body) and not _always_leaves(st.orelse):
+                            out.append((st.test, False))
+                        elif st.orelse and _always_leaves(st.orelse) and not _always_leaves(st.body):
+                            out.append((st.test, True))
+        child, p = p, getattr(p, "parent", None)
+    if isinstance(p, (ast.FunctionDef, ast.AsyncFunctionDef)) and child in p.body:
+        for st in p.body[: p.body.index(child)]:
+            if isinstance(st, ast.If):
+                if _always_leaves(st.body) and not _always_leaves(st.orelse):
+                    out.append((st.test, False))
+                elif st.orelse and _always_leaves(st.orelse) and not _always_leaves(st.body):
+                    out.append((st.test, True))
+    return out
+
+
+def known_at(stmt: ast.AST, goal_src: str) -> bool:
+    """Some structural fact at `stmt` implies the goal (a python boolean expression over atom texts, given as source)."""
+    goal = ast.parse(goal_src, mode="eval").body
+    return any(edge_implies(t, v, goal) for t, v in facts_at(stmt))
